@@ -1,0 +1,35 @@
+//go:build verif
+
+package limiter
+
+import "sync/atomic"
+
+// Verification hooks (build tag "verif" only). A schedule point is a named no-op call placed in
+// one of the narrow windows the verification harness wants to control; the harness installs a
+// hook that yields (or spins) there. Hooks never block.
+
+var verifHook atomic.Value // of func(point string)
+
+// VerifSetHook installs (or, with nil, removes) the schedule-point hook.
+func VerifSetHook(f func(point string)) {
+	if f == nil {
+		f = func(string) {}
+	}
+	verifHook.Store(f)
+}
+
+func verifPoint(name string) {
+	if f, ok := verifHook.Load().(func(string)); ok && f != nil {
+		f(name)
+	}
+}
+
+// VerifInFlight returns the limiter's own in-flight gauge.
+func (l *DefaultLimiter) VerifInFlight() int64 {
+	return atomic.LoadInt64(l.inFlight)
+}
+
+// VerifBacklogLen returns the number of elements currently in the backlog.
+func (l *QueueBlockingLimiter) VerifBacklogLen() int {
+	return int(l.backlog.len())
+}
